@@ -26,3 +26,20 @@ func init() {
 		thorough:      []buildSpec{plain(16), race(8)},
 	}
 }
+
+func init() {
+	props["C07"] = propSpec{
+		level: "exploration",
+		rule: "deadlock-at-quiescence scenarios, one at a time per process: container (Queue / Deque, seeded valid options) in state {empty, one, several, full}; 0-4 blocking operations (Queue.Wait, BlockingAdd, Distributor.Receive; " +
+			"Deque.WaitFront/WaitBack/WaitPushFront/WaitPushBack, Distributor Send/Receive; at most one waiter per Deque condition variable) parked; then 1-5 stimulus steps {burst of pushes back-to-back, pops, pop racing push, cancel one waiter, Close, " +
+			"a fresh call whose condition may already hold, settle} under GOMAXPROCS 1/2/4/16; verdict only at quiescence (two identical goroutine censuses, every goroutine parked, logical clock unchanged, no timers): an operation still parked although " +
+			"its context is cancelled / the container is closed / it is a consumer and Len()>0 / it is a producer and there is room (static capacity, or a fresh call of the same kind completes at once) is a violation; " +
+			"plus hook scenarios placing cancel / the enabling operation / Close exactly between predicate check and cond.Wait. distinct_nontrivial = distinct (container, options, initial state, parked operation kinds, GOMAXPROCS) in which >= 1 operation was observed parked before the stimulus",
+		assumptions: append([]string{"scenarios use no timers, so quiescence is stable; a watchdog expiry without quiescence is inconclusive",
+			"two waiters on the same Deque condition variable are not placed (they signal each other for ever and the process never becomes quiescent)"}, commonAssumptions...),
+		floorEvals:    200,
+		floorDistinct: 40,
+		quick:         []buildSpec{plain(8)},
+		thorough:      []buildSpec{plain(16)},
+	}
+}
